@@ -7,7 +7,9 @@ or of the backend's base arithmetic, which C04/C05 prove correct; see the transl
 -/
 import Decaf.Generated.OpForms
 import Mathlib.Tactic.Abel
+import Mathlib.Tactic.Ring
 import Mathlib.Algebra.Group.Basic
+import Mathlib.Algebra.BigOperators.Group.List.Basic
 
 namespace Formulas.OpForms
 open Gen.OpForms
@@ -31,3 +33,51 @@ theorem mulForms_correct : ∀ f ∈ (mulForms : List (String × (ℕ → G → 
   repeat' (first | constructor | (intro k a; first | trivial | abel) | (intro f hf; simp at hf))
 
 end Formulas.OpForms
+
+/-! ### the operator forms of the three prime fields (src/fields/{fq,fr,fp}/ops.rs; 87 impl blocks on the pinned tree),
+on the denoted field element: every form computes the field operation, in every field. -/
+namespace Formulas.FieldOpForms
+open Gen.FieldOpForms
+
+variable {K : Type} [Field K]
+
+theorem foldl_add_eq_sum (l : List K) : ∀ acc : K, l.foldl (fun x y => x + y) acc = acc + l.sum := by
+  induction l with
+  | nil => intro acc; simp
+  | cons x xs ih => intro acc; rw [List.foldl_cons, ih, List.sum_cons]; ring
+
+theorem foldl_mul_eq_prod (l : List K) : ∀ acc : K, l.foldl (fun x y => x * y) acc = acc * l.prod := by
+  induction l with
+  | nil => intro acc; simp
+  | cons x xs ih => intro acc; rw [List.foldl_cons, ih, List.prod_cons]; ring
+
+theorem addForms_correct : ∀ f ∈ (addForms : List (String × (K → K → K))), ∀ a b, f.2 a b = a + b := by
+  simp only [addForms, List.forall_mem_cons]
+  repeat' (first | constructor | (intro a b; first | trivial | ring) | (intro f hf; simp at hf))
+
+theorem subForms_correct : ∀ f ∈ (subForms : List (String × (K → K → K))), ∀ a b, f.2 a b = a - b := by
+  simp only [subForms, List.forall_mem_cons]
+  repeat' (first | constructor | (intro a b; first | trivial | ring) | (intro f hf; simp at hf))
+
+theorem mulForms_correct : ∀ f ∈ (mulForms : List (String × (K → K → K))), ∀ a b, f.2 a b = a * b := by
+  simp only [mulForms, List.forall_mem_cons]
+  repeat' (first | constructor | (intro a b; first | trivial | ring) | (intro f hf; simp at hf))
+
+/-- division forms: `a / b` (the implementation panics on `b = 0`; the denotation `a * b⁻¹` is the same function) -/
+theorem divForms_correct : ∀ f ∈ (divForms : List (String × (K → K → K))), ∀ a b, f.2 a b = a / b := by
+  simp only [divForms, List.forall_mem_cons]
+  repeat' (first | constructor | (intro a b; first | trivial | ring) | (intro f hf; simp at hf))
+
+theorem negForms_correct : ∀ f ∈ (negForms : List (String × (K → K))), ∀ a, f.2 a = -a := by
+  simp only [negForms, List.forall_mem_cons]
+  repeat' (first | constructor | (intro a; first | trivial | ring) | (intro f hf; simp at hf))
+
+theorem sumForms_correct : ∀ f ∈ (sumForms : List (String × (List K → K))), ∀ l, f.2 l = l.sum := by
+  simp only [sumForms, List.forall_mem_cons]
+  repeat' (first | constructor | (intro l; first | trivial | (simp only [foldl_add_eq_sum, zero_add])) | (intro f hf; simp at hf))
+
+theorem prodForms_correct : ∀ f ∈ (prodForms : List (String × (List K → K))), ∀ l, f.2 l = l.prod := by
+  simp only [prodForms, List.forall_mem_cons]
+  repeat' (first | constructor | (intro l; first | trivial | (simp only [foldl_mul_eq_prod, one_mul])) | (intro f hf; simp at hf))
+
+end Formulas.FieldOpForms
